@@ -493,14 +493,39 @@ class Program:
                     self.callees[f.id].add(t)
                     self.callers[t].add(f.id)
                     self.call_sites[t].append(c)
-            # closures created here may be invoked by whoever receives them
+            # closures created here may be invoked by whoever receives them; so may function items
+            # passed as values (`.all(is_valid_meta_var_char)`)
             for b in f.blocks:
                 for s in b["s"]:
-                    if s[0] == "A" and s[2][0] == "agg" and s[2][1].get("k") in ("closure", "coroutine", "coroutine_closure"):
-                        cid = s[2][1]["def"]
+                    if s[0] != "A":
+                        continue
+                    rv = s[2]
+                    if rv[0] == "agg" and rv[1].get("k") in ("closure", "coroutine", "coroutine_closure"):
+                        cid = rv[1]["def"]
                         if cid in self.fns:
                             self.callees[f.id].add(cid)
                             self.callers[cid].add(f.id)
+                    ops = []
+                    if rv[0] in ("use", "rep"):
+                        ops = [rv[1]]
+                    elif rv[0] == "cast":
+                        ops = [rv[2]]
+                    elif rv[0] == "agg":
+                        ops = rv[2]
+                    for o in ops:
+                        self._fn_item_edge(f, o)
+                t = b["t"]
+                if t[0] == "call":
+                    for o in t[2]:
+                        self._fn_item_edge(f, o)
+
+    def _fn_item_edge(self, f, o):
+        if o[0] == "k":
+            k = o[1]
+            tgt = k.get("fn") or k.get("closure")
+            if tgt and tgt in self.fns:
+                self.callees[f.id].add(tgt)
+                self.callers[tgt].add(f.id)
 
     def call_targets(self, c):
         """workspace functions a call may reach (resolved exactly, or all impls of a trait method)"""
